@@ -239,12 +239,13 @@ impl Sched {
                     if g.co_running.is_empty() {
                         break;
                     }
-                    // the primary has parked; let the released lock holders reach their next yield point as well
-                    let (g2, _) = self.cv.wait_timeout(g, Duration::from_millis(50)).unwrap_or_else(|e| e.into_inner());
+                    // the primary has parked; give the released lock holders a moment to reach their next yield point
+                    // as well. A released holder can itself be waiting for a lock that another PARKED actor holds
+                    // (flagged or not), so do not wait for it: go on scheduling, it runs alongside.
+                    let (g2, _) = self.cv.wait_timeout(g, Duration::from_millis(20)).unwrap_or_else(|e| e.into_inner());
                     g = g2;
-                    if t0.elapsed() > hang_after && !g.co_running.is_empty() {
-                        let stuck = g.co_running.iter().map(|i| (*i, g.last_site[*i])).collect();
-                        return Outcome::LockCycle(stuck);
+                    if g.co_running.is_empty() || t_release.elapsed() > Duration::from_millis(200) {
+                        break;
                     }
                     continue;
                 };
@@ -282,7 +283,8 @@ impl Sched {
                 if g.st.iter().all(|s| *s == St::Done) {
                     return Outcome::Completed;
                 }
-                // only a wake-up from outside the actors (tokio timer, runtime worker finishing a task) can help now
+                // only a wake-up from outside the actors (tokio timer, runtime worker finishing a task) can help now -
+                // or a released lock holder that is still running alongside
                 let t1 = Instant::now();
                 loop {
                     let (g2, _) = self.cv.wait_timeout(g, Duration::from_millis(50)).unwrap_or_else(|e| e.into_inner());
@@ -290,6 +292,14 @@ impl Sched {
                     eligible = (0..g.st.len()).filter(|i| matches!(g.st[*i], St::Ready(_))).collect();
                     if !eligible.is_empty() || g.st.iter().all(|s| *s == St::Done) {
                         break;
+                    }
+                    if !g.co_running.is_empty() {
+                        // nobody else can run and a released holder is silent: it waits for a lock nobody will release
+                        if t1.elapsed() > hang_after {
+                            let stuck = g.co_running.iter().map(|i| (*i, g.last_site[*i])).collect();
+                            return Outcome::LockCycle(stuck);
+                        }
+                        continue;
                     }
                     if t1.elapsed() > grace {
                         let stuck = (0..g.st.len()).filter(|i| g.st[*i] == St::Blocked).map(|i| (i, g.last_site[i])).collect();
